@@ -32,10 +32,11 @@
                   - a secondary error is never returned: when no rule group reports a primary error, no
                     rule group reports anything (both pipelines)                 (C04_secondary_never_alone, C04_no_primary_then_nothing)
                   - accepted -> 5.5.2.2 and 5.8.1 - 5.8.5 in the Spec's own formulation; the Spec's
-                    fuel-bounded reachability is the transitive closure          (C04_accepted_cycles_variables, C04_spec_reachable_from)
+                    fuel-bounded reachability is the transitive closure; accepted -> 5.5.2.3 and, unconditionally, 5.6
+                                                                              (C04_accepted_cycles_variables, C04_spec_reachable_from,
+                                                                               C04_accepted_spreads_possible, C04_accepted_valid_sections)
     NOT proved: the converse for 5.3.1 / 5.3.3 (valid -> the field visitor is silent), the equivalences
-    for 5.2.3.1 (subscription root), 5.3.2 (FieldsInSetCanMerge / SameResponseShape), 5.5.2.3 (spread
-    possible), the converse for 5.5.2.1 / 5.5.2.2 / 5.8 (valid -> the rule is silent), hence
+    for 5.2.3.1 (subscription root), 5.3.2 (FieldsInSetCanMerge / SameResponseShape), the converse for 5.5.2.1 / 5.5.2.2 / 5.8 (valid -> the rule is silent), hence
     validate_verdict itself; validate_error_located.  These are covered on every run by the
     correspondence check and the Spec oracle only. *)
 From Coq Require Import List NArith.
@@ -285,6 +286,27 @@ Theorem C04_accepted_cycles_variables : forall pi S F D,
   valid_5_8_1 D = true /\ valid_5_8_2 S F D = true /\ valid_5_8_3 S F D = true /\ valid_5_8_4 S F D = true /\ valid_5_8_5 S F D = true.
 Proof. exact memo_accepted_cycles_variables. Qed.
 
+(** 5.5.2.3: every spread and typed inline fragment can apply.  The validator takes the
+    implementations of an interface from Schema.InterfaceImplementations, the Spec from the object
+    types that declare it: [schema_impls_ok] (decidable, evaluated on every generated schema) says
+    that the two agree and that type names are unique keys. *)
+Theorem C04_accepted_spreads_possible : forall pi S F D,
+  order_ok pi -> schema_impls_ok S = true -> validate_model_memo repaired pi S F D = Done [] -> valid_5_5_2_3 S F D = true.
+Proof. exact memo_accepted_spreads_possible. Qed.
+
+(** every section for which "accepted => holds" is proved, in one statement and without side
+    condition on the document (5.6 needs [schema_args_ok]: argument types are input types) *)
+Theorem C04_accepted_valid_sections : forall pi S F D,
+  order_ok pi -> schema_ok S = true -> schema_args_ok S = true -> validate_model_memo repaired pi S F D = Done [] ->
+  valid_5_2_1_1 D = true /\ valid_5_2_2_1 D = true /\ valid_root S D = true /\
+  valid_5_3_1 S F D = true /\ valid_5_3_3 S F D = true /\
+  valid_5_4 S F D = true /\
+  valid_5_5_1 S F D = true /\ valid_5_5_2_1 D = true /\ valid_5_5_2_2 D = true /\
+  valid_5_6 S F D = true /\
+  valid_5_7 S D = true /\
+  valid_5_8_1 D = true /\ valid_5_8_2 S F D = true /\ valid_5_8_3 S F D = true /\ valid_5_8_4 S F D = true /\ valid_5_8_5 S F D = true.
+Proof. exact memo_accepted_valid_sections. Qed.
+
 (** the same per use, without the Spec's "if the declared type is an input type" escape; and what
     "allowed at a position of type b!" (the [if:] of @skip / @include, b = Boolean) says about the
     declared type: it is b under non-null wrappers, and it is non-null itself unless the position or
@@ -501,6 +523,8 @@ Print Assumptions C04_accepted_doc_ok_conjuncts.
 Print Assumptions C04_spec_reachable_from.
 Print Assumptions C04_spec_op_fragments.
 Print Assumptions C04_accepted_cycles_variables.
+Print Assumptions C04_accepted_spreads_possible.
+Print Assumptions C04_accepted_valid_sections.
 Print Assumptions C04_accepted_variable_usages_allowed.
 Print Assumptions C04_usage_allowed_at_named_nonnull.
 Print Assumptions C04_validate_ok_doc_ok_partial.
